@@ -11,7 +11,7 @@ from pyvc import ground, source
 from specs.common import EventWorld, EVENTS, event_classes
 
 PROP = "C15"
-GROUNDABLE = False
+GROUNDABLE = True
 BATTERY = "c15_battery.py"
 PATTERNS = "watchdog/utils/patterns.py"
 
